@@ -47,6 +47,11 @@ Spec == Init /\ [][Next]_vars
 
 \* whichever evaluator evaluated the shared formula before: a call is answered from the calling evaluator's own table
 CallUsesOwnTable == \A i \in 1..Len(hist) : hist[i].op = "call" => hist[i].ver = ns[hist[i].e][hist[i].f]
+\* refinement: this machine (with its exported history) is an instance of XlRegistryCore, whose SnapshotInv Apalache proves inductive
+Core == INSTANCE XlRegistryCore WITH ns <- [e \in Evs |-> IF e \in DOMAIN ns THEN ns[e] ELSE [f \in FNames |-> 0]],
+                                    live <- DOMAIN ns, perNode <- (Bind = "per-node")
+RefinesCore == Core!Spec
+CoreInv == Core!SnapshotInv
 SnapshotWithinRegistry == \A e \in DOMAIN ns, f \in FNames : ns[e][f] <= registry[f]
 CallsAfterCreation == \A i \in 1..Len(hist) : hist[i].op = "call" => \E j \in 1..(i - 1) : hist[j].op = "new" /\ hist[j].e = hist[i].e
 VisibleIfRegisteredBefore == \A i \in 1..Len(hist) : (hist[i].op = "call" /\ hist[i].res = "value") =>
